@@ -19,9 +19,14 @@ for f in sorted(glob.glob(os.path.join(V, "seeded", "*", "meta.json"))):
             sig = (c["signatures"][0].split(" (")[0] if c["signatures"] else "")
             det.append("%s %s: `%s`" % (c["check"], c["tier"], sig))
     miss = ["%s %s (exit %d)" % (c["check"], c["tier"], c["exit"]) for c in runs if c["exit"] != 1]
-    rows.append("| %s | %s | %s | %s | %s |" % (m["id"], ", ".join(os.path.basename(x) for x in files), title.replace("|", "\\|")[:150],
-                                              "; ".join(det) if det else "—", "; ".join(miss) if miss else ""))
-table = "| id | files | change | caught by (first signature) | not caught by |\n|---|---|---|---|---|\n" + "\n".join(rows)
+    fp = m.get("first_pass")
+    if fp is None:
+        first = "(wave 1)"
+    else:
+        first = "; ".join("%s: %s" % (c["check"], "caught" if c["exit"] == 1 else "MISSED") for c in fp)
+    rows.append("| %s | %s | %s | %s | %s | %s |" % (m["id"], ", ".join(os.path.basename(x) for x in files), title.replace("|", "\\|")[:150],
+                                                   first, "; ".join(det) if det else "—", "; ".join(miss) if miss else ""))
+table = "| id | files | change | checks as committed before the change was known | caught now by (first signature) | not caught by |\n|---|---|---|---|---|---|\n" + "\n".join(rows)
 p = os.path.join(V, "DESIGN.md")
 s = open(p).read()
 if "SEEDED_TABLE_PLACEHOLDER" in s:
